@@ -1255,6 +1255,8 @@ func (p *PX) havocLoopKeep(fr *pxFrame, lp *loopInfo, st *pxState, keep map[stri
 				if top, ok := typeRange(p.w, phi.Type()); ok {
 					if step > 0 {
 						st.env[fresh.key] = top.Intersect(ISet{{is.Min(), new(big.Int).Sub(top.Max(), big.NewInt(step))}})
+						// rotated loop (`for j := range n`): j < n is an invariant of the header (pxrotated.go)
+						p.rotatedCounterBound(fr, lp, phi, fresh, init, st)
 					} else {
 						st.env[fresh.key] = top.Intersect(ISet{{new(big.Int).Sub(top.Min(), big.NewInt(step)), is.Max()}})
 						p.downCounterBounds(fresh, init, st)
